@@ -76,6 +76,7 @@ func enumPaths(fn *ssa.Function, decide func(cond ssa.Value) int, isEvent func(s
 
 // cmdIndexOf: v is params.Command[idx] possibly wrapped in strings.ToLower/ToUpper.
 func cmdIndexOf(v ssa.Value) (int64, bool) {
+	v = world.Forward(v)
 	if c, ok := v.(*ssa.Call); ok {
 		if f := c.Call.StaticCallee(); f != nil && (f.String() == "strings.ToLower" || f.String() == "strings.ToUpper") {
 			return cmdIndexOf(c.Call.Args[0])
